@@ -709,10 +709,25 @@ def _tr_state(fw, rec):
         viols.append(float(pb.maxcv(xk, m.cub_val[k, :], m.ceq_val[k, :])))
     xl, xu = pb.bounds.xl, pb.bounds.xu
     pts = m.interpolation.x_base[:, None] + m.interpolation.xpt
+    # magnitude of the terms the constraint violations are made of (their rounding errors, multiplied by the
+    # penalty, are the uncertainty of a merit value recomputed after a shift of the base point)
+    vmag = 1.0
+    try:
+        lin = pb.linear
+        apts = np.abs(pts)
+        for a_, b_ in ((lin.a_ub, lin.b_ub), (lin.a_eq, lin.b_eq)):
+            if a_.size:
+                vmag = max(vmag, float(np.max(np.abs(a_) @ apts + np.abs(b_)[:, None])))
+        for arr in (m.cub_val, m.ceq_val):
+            if arr.size:
+                vmag = max(vmag, float(np.max(np.abs(arr[np.isfinite(arr)]), initial=1.0)))
+    except Exception:  # noqa
+        vmag = INF
     return {
         "radius": float(fw.radius),
         "resolution": float(fw.resolution),
         "penalty": float(fw.penalty),
+        "viol_mag": vmag,
         "best_index": int(fw.best_index),
         "merits": merits,
         "viols": viols,
